@@ -54,16 +54,26 @@ class TaskGroup:
             future = asyncio.run_coroutine_threadsafe(func(*args), self._loop)
             return future.result()
 
+        # Puts must arrive in the order they were made, a put that has
+        # to wait for room is not overtaken by a later one (as a woken
+        # asyncio.Queue putter can be).
+        put_lock = asyncio.Lock()
+
+        async def _ordered_put(message: ASGIReceiveEvent) -> None:
+            async with put_lock:
+                if not finished:
+                    await app_queue.put(message)
+
         async def _put(message: ASGIReceiveEvent) -> None:
             if finished:
                 return
-            elif asyncio.current_task() is app_task and app_queue.full():
+            elif asyncio.current_task() is app_task and (app_queue.full() or put_lock.locked()):
                 # Put from within one of the app's own sends (e.g. the
                 # disconnect that follows its final send), waiting for
                 # room here would be waiting for the app itself.
-                self.spawn(app_queue.put, message)
+                self.spawn(_ordered_put, message)
             else:
-                await app_queue.put(message)
+                await _ordered_put(message)
 
         async def _run(*args: Any) -> None:
             nonlocal app_task
